@@ -361,3 +361,29 @@ Theorem C02_open_torn :
 Proof. exact open_torn. Qed.
 Print Assumptions C02_open_torn.
 
+(* non-vacuity of the standing hypotheses: for every block size and blocks-per-file there are parameters with a checksum below 2^32 satisfying no_zero_collision (now bounded to frame payloads) *)
+Theorem C02_hypotheses_satisfiable :
+    forall BSv NBv : N,
+    7 < BSv ->
+    BSv <= 65542 ->
+    exists P : params,
+    BS P = BSv /\
+    NB P = NBv /\
+    7 < BS P /\
+    BS P <= 65542 /\
+    (forall (t : byte) (p : bytes), crcf P t p < 2 ^ 32) /\
+    no_zero_collision P /\ L_GC P = false /\ L_IO P = false /\ L_SHORT P = false.
+Proof. exact torn_hyps_sat. Qed.
+Print Assumptions C02_hypotheses_satisfiable.
+
+(* why the bound is needed: the same condition over payloads of ANY length contradicts a 32-bit checksum (pigeonhole) - found by the proof effort itself *)
+Theorem C02_unbounded_hypothesis_inconsistent :
+    forall P : params,
+    (forall (t : byte) (p : bytes), crcf P t p < 2 ^ 32) ->
+    (forall (ty : byte) (fp : list byte) (n : N),
+    n < lenN fp ->
+    crcf P ty (takeN n fp ++ zerosN (lenN fp - n)) = crcf P ty fp ->
+    takeN n fp ++ zerosN (lenN fp - n) = fp) -> False.
+Proof. exact nzc_inconsistent. Qed.
+Print Assumptions C02_unbounded_hypothesis_inconsistent.
+
